@@ -345,6 +345,30 @@ Proof.
   cbn. f_equal. unfold t0, G1, res1 in *. field. intros E. apply NZ. nra.
 Qed.
 
+Lemma altsecant_exact_1d c xs x0 x1 trig thr iter st :
+  0 <= thr -> (trig <=? iter)%nat = true ->
+  p_u st = [G1 c xs x0] -> p_r st = [- (x0 - G1 c xs x0)] ->
+  thr < ((- (x1 - G1 c xs x1)) - (- (x0 - G1 c xs x0))) * ((- (x1 - G1 c xs x1)) - (- (x0 - G1 c xs x0))) ->
+  snd (altsecant_step RF trig thr st iter [G1 c xs x1] [x1 - G1 c xs x1]) = [xs].
+Proof.
+  intros Ht Hi Hu Hr Hg. unfold altsecant_step. simpl snd. rewrite Hi, Hu, Hr. cbn.
+  assert (NZ : (- (x1 - G1 c xs x1)) - (- (x0 - G1 c xs x0)) <> 0) by (apply sqr_pos_neq; lra).
+  destruct (Rlt_dec _ _) as [_|N]; [|exfalso; apply N; lra].
+  f_equal. unfold G1 in *. field. intros E. apply NZ. nra.
+Qed.
+
+Lemma crossedsecant_exact_1d c xs x0 x1 trig thr iter st :
+  0 <= thr -> (trig <=? iter)%nat = true ->
+  p_u st = [G1 c xs x0] -> p_r st = [- (x0 - G1 c xs x0)] ->
+  thr < ((- (x1 - G1 c xs x1)) - (- (x0 - G1 c xs x0))) * ((- (x1 - G1 c xs x1)) - (- (x0 - G1 c xs x0))) ->
+  snd (crossedsecant_step RF trig thr st iter [G1 c xs x1] [x1 - G1 c xs x1]) = [xs].
+Proof.
+  intros Ht Hi Hu Hr Hg. unfold crossedsecant_step. simpl snd. rewrite Hi, Hu, Hr. cbn.
+  assert (NZ : (- (x1 - G1 c xs x1)) - (- (x0 - G1 c xs x0)) <> 0) by (apply sqr_pos_neq; lra).
+  destruct (Rlt_dec _ _) as [_|N]; [|exfalso; apply N; lra].
+  f_equal. unfold G1 in *. field. intros E. apply NZ. nra.
+Qed.
+
 (* ================================================================ Anderson weights, two stored fields *)
 Lemma dot_comm (a : V) : forall b, dot RF a b = dot RF b a.
 Proof. induction a; destruct b; simpl; auto. rewrite IHa. ring. Qed.
